@@ -1,12 +1,19 @@
 //! Family `resp` (C20): the real serializer, `parse_resp_frame` and `RespParser`.
-use crate::util::*;
-use crate::{max_alloc, reset_alloc};
+use verif_harness::util::*;
+use verif_harness::{line_loop, max_alloc, reset_alloc, Tracking};
 use ferrous::protocol::parser::parse_resp_frame;
 use ferrous::protocol::serializer::serialize_to_vec;
 use ferrous::protocol::{RespFrame, RespParser};
 use std::panic::{catch_unwind, AssertUnwindSafe};
 
-pub fn step(ws: &[&str]) -> String {
+#[global_allocator]
+static A: Tracking = Tracking;
+
+fn main() {
+    line_loop((), |_, ws| step(ws));
+}
+
+fn step(ws: &[&str]) -> String {
     match ws {
         ["sizeof"] => format!("{}", std::mem::size_of::<RespFrame>()),
         ["fmt", bits] => match u64::from_str_radix(bits, 16) {
